@@ -238,6 +238,89 @@ fn xmlser(inp: &str) {
     walk(&dom.document);
 }
 
+/// text chunks (`hchunk <hex>`) through the real html5ever parser (document, or fragment with `context <ns hex> <local hex>`)
+/// into an RcDom; prints the tree in the canonical line form the model DOM of engine M is dumped in
+fn htmldoc(inp: &str) {
+    use html5ever::driver::{parse_document, parse_fragment, ParseOpts};
+    use html5ever::tree_builder::{QuirksMode, TreeBuilderOpts};
+    use html5ever::{Attribute, LocalName, Namespace, QualName};
+    use markup5ever_rcdom::{Handle, NodeData, RcDom};
+    use tendril::TendrilSink;
+    fn s(h: &str) -> String {
+        String::from_utf8(unhex(h)).unwrap()
+    }
+    fn hx(b: &[u8]) -> String {
+        b.iter().map(|b| format!("{b:02x}")).collect::<String>()
+    }
+    let mut tbo = TreeBuilderOpts::default();
+    let mut chunks: Vec<String> = vec![];
+    let mut context: Option<QualName> = None;
+    let mut cattrs: Vec<Attribute> = vec![];
+    let mut form = true;
+    for l in inp.lines() {
+        let f: Vec<&str> = l.split(' ').collect();
+        match f[0] {
+            "scripting" => tbo.scripting_enabled = f[1] == "1",
+            "srcdoc" => tbo.iframe_srcdoc = f[1] == "1",
+            "ctxscripting" => form = f[1] == "1",
+            "quirks" => {
+                tbo.quirks_mode = match f[1] {
+                    "Quirks" => QuirksMode::Quirks,
+                    "LimitedQuirks" => QuirksMode::LimitedQuirks,
+                    _ => QuirksMode::NoQuirks,
+                }
+            },
+            "context" => context = Some(QualName::new(None, Namespace::from(&*s(f[1])), LocalName::from(&*s(f[2])))),
+            "cattr" => cattrs.push(Attribute { name: QualName::new(None, Namespace::from(""), LocalName::from(&*s(f[1]))), value: StrTendril::from_slice(&s(f[2])) }),
+            "hchunk" => chunks.push(s(f.get(1).copied().unwrap_or(""))),
+            _ => {},
+        }
+    }
+    let opts = ParseOpts { tree_builder: tbo, ..Default::default() };
+    let dom: RcDom = match context {
+        Some(c) => {
+            let mut p = parse_fragment(RcDom::default(), opts, c, cattrs, form);
+            for c in &chunks {
+                p.process(StrTendril::from_slice(c));
+            }
+            p.finish()
+        },
+        None => {
+            let mut p = parse_document(RcDom::default(), opts);
+            for c in &chunks {
+                p.process(StrTendril::from_slice(c));
+            }
+            p.finish()
+        },
+    };
+    fn walk(h: &Handle, d: usize) {
+        match &h.data {
+            NodeData::Document => println!("{d} document"),
+            NodeData::Doctype { name, public_id, system_id } => println!("{d} doctype {}|{}|{}", hx(name.as_bytes()), hx(public_id.as_bytes()), hx(system_id.as_bytes())),
+            NodeData::Text { contents } => println!("{d} text {}", hx(contents.borrow().as_bytes())),
+            NodeData::Comment { contents } => println!("{d} comment {}", hx(contents.as_bytes())),
+            NodeData::ProcessingInstruction { .. } => println!("{d} pi"),
+            NodeData::Element { name, attrs, template_contents, .. } => {
+                let a: Vec<String> =
+                    attrs.borrow().iter().map(|a| format!("{}:{}={}", hx(a.name.ns.as_bytes()), hx(a.name.local.as_bytes()), hx(a.value.as_bytes()))).collect();
+                println!("{d} elem {}:{} [{}]", hx(name.ns.as_bytes()), hx(name.local.as_bytes()), a.join(" "));
+                if let Some(t) = template_contents.borrow().as_ref() {
+                    println!("{} content", d + 1);
+                    for c in t.children.borrow().iter() {
+                        walk(c, d + 2);
+                    }
+                }
+            },
+        }
+        for c in h.children.borrow().iter() {
+            walk(c, d + 1);
+        }
+    }
+    walk(&dom.document, 0);
+    println!("quirks {:?}", dom.quirks_mode.get());
+    println!("errors {}", dom.errors.borrow().len());
+}
+
 /// tag tokens (one per line: `tag <kind> <prefix|-> <local hex> {<prefix|-> <local hex> <value hex>}`) straight into the
 /// real XmlTreeBuilder over an RcDom; prints every element with its namespace and its attributes in document order
 fn xmltree(inp: &str) {
@@ -382,7 +465,7 @@ fn main() {
             "inject" => inject = Some(String::from_utf8(unhex(v)).unwrap()),
             "content" => content = String::from_utf8(unhex(v)).unwrap(),
             "bytes" => raw_chunks.push(unhex(v)),
-            "ev" | "tag" => {},
+            "ev" | "tag" | "scripting" | "srcdoc" | "quirks" | "context" | "cattr" | "hchunk" | "ctxscripting" => {},
             "" => {},
             x => panic!("directive {x}"),
         }
@@ -393,6 +476,10 @@ fn main() {
     }
     if mode == "xmltree" {
         xmltree(&inp);
+        return;
+    }
+    if mode == "htmldoc" {
+        htmldoc(&inp);
         return;
     }
     if mode == "decode" {
